@@ -357,7 +357,7 @@ def extra_checks(tier, seed, repo):
     return {"obligations": obs + rel_obs, "bounded": [bounded]}
 
 
-def _run_relational(seed, repo, only=None):
+def _run_relational(seed, repo, only=None, case=""):
     """contracts/C07_relational.py under the repository's interpreter -> its JSON summary"""
     import json
     import os
@@ -368,7 +368,8 @@ def _run_relational(seed, repo, only=None):
     fd, out = tempfile.mkstemp(prefix="pyvc-c07rel.", suffix=".json")
     os.close(fd)
     try:
-        cmd = [py, os.path.join(here, "C07_relational.py"), repo, str(seed), out] + ([only] if only else [])
+        repo = repo or os.environ.get("PYVC_REPO", "/repo")
+        cmd = [py, os.path.join(here, "C07_relational.py"), repo, str(seed), out] + ([only, case] if only else [])
         r = subprocess.run(cmd, capture_output=True, text=True, timeout=900)
         try:
             with open(out) as f:
@@ -419,7 +420,47 @@ def replay_extra(rec):
 # and the minimum-image contract
 _DEP = [C03.Method(1), C03.Method(2)] + list(C02.UNITS)
 
-UNITS = [GrTranslation(1), GrTranslation(2), GrTranslation(3), GrSpeciesSwap(), WriterTranslation("cutoffneighbors"), WriterTranslation("Nnearests")] + _DEP
+
+
+def _quick():
+    """quick tier of ./check (the case lists below are longer in the thorough tier and in replays)"""
+    import os
+    import sys
+    if not any("pyvc" in a for a in sys.argv[:1]) and "pyvc.main" not in sys.modules:
+        return False
+    tier = os.environ.get("VERIF_TIER", "quick")
+    if "--tier" in sys.argv:
+        tier = sys.argv[sys.argv.index("--tier") + 1]
+    return tier != "thorough"
+
+
+def _relational_units():
+    import contracts.C06 as C06
+    import contracts.C09 as C09
+    import contracts.C10 as C10
+    import contracts.C11 as C11
+    import contracts.C13 as C13
+    import contracts.C15 as C15
+    import contracts.C17 as C17
+    import contracts.C07_units as U
+    q = _quick()
+    T = U.TRANSLATION
+    units = [
+        U.Boo2d(C10.LthOrder(), T, cases=["unweighted/nofile", "weighted/nofile"]),
+        U.Boo3d(C09.QlmQlm(), T),
+        U.Tetra(C17.Tetrahedral(), T),
+        U.PairEntropy(C17.ParticleS2(), T, cases=["d=2/s2-only", "d=3/savegr"] if q else None),
+        U.Gyration(C17.Gyration(), T),
+        U.DivCurl(C15.DivergenceCurl(), T),
+        # U.Hessian(C11.Diagonalize(), T, cases=["d=2/K=2", "d=3/K=1"]),
+        U.Relaxation(C06.DynRelaxation(), T, cases=["d=2/slow/xu/nocage/all", "d=3/slow/xu/cage/condition", "d=3/fast/x-only/cage/condition"] if q else None),
+        U.CondGr(C13.CondGr(), T, cases=["d=2/float", "d=3/bool", "d=3/vector"] if q else [c for c in C13.CondGr().cases() if "badtype" not in c]),
+    ]
+    return units
+
+
+UNITS = [GrTranslation(1), GrTranslation(2), GrTranslation(3), GrSpeciesSwap(), WriterTranslation("cutoffneighbors"), WriterTranslation("Nnearests")] \
+    + _relational_units() + _DEP
 
 
 MANIFEST = {
